@@ -1,58 +1,135 @@
 """Messaging: producers → MessageQueue (delivery latency, capacity, round-robin consumers that ack / reject /
 let the visibility timeout fire → schedule_redelivery, max_redeliveries → DeadLetterQueue with capacity +
 retention, reprocess_all) and Topic (several subscribers, per-subscriber delivery latency, unsubscribe /
-re-subscribe window, retained history replayed to a late subscriber, a bridge subscriber that republishes
-into the queue).  Everything is driven by Sources and small harness entities under the engine."""
+re-subscribe window, retained history replayed to a late subscriber and to a re-activated one, a bridge subscriber that republishes
+into the queue).  Everything is driven by Sources and small harness entities under the engine.
+
+Configuration coverage (widened):
+  * every constructor parameter of MessageQueue / DeadLetterQueue / Topic is drawn: delivery latencies incl. 0,
+    redelivery delay from 1 ms to 2.5 s, max_redeliveries 0..10, capacity None / 0 / 1 / small / large,
+    with and without a dead letter queue, DLQ capacity None / 0 / 1 / small, DLQ retention shorter and longer than the
+    cleanup period, Topic max_subscribers None / 0 / 1 / exactly n / n+1, retained history 0 / small / around the
+    library default `deque(maxlen=100)` (99, 100, 101, 110, 203 and the default itself) with more than 100 publishes
+    before the late subscriber joins (bounded history wraps, the replay is a > 100 event burst at one instant);
+  * all durations come from `dur_ms` (lossy values, 1-4 decimals, round values), the absolute admin times
+    (unsubscribe / re-subscribe, late subscriber, DLQ operations, bursts) as well, so they lie above 1 s and are lossy
+    sometimes; the ORDER of related durations varies (visibility timeout shorter / longer than the processing time,
+    redelivery delay shorter than the delivery latency, DLQ retention shorter than the cleanup period, ...);
+  * load regimes: light, sustained overload (publish rate far above the poll rate, bounded and unbounded queue),
+    starved (no poll source, polls only from acks), bursts of many same-instant publishes / topic publishes;
+  * a second queue ("audit": no DLQ, own latency / capacity incl. 0 and 1) fed by the bridge subscriber;
+  * Topic publication through all three entry points (generator, "publish" event, publish_sync) in ONE run
+    (`t_mode = "mix"`), single-mode runs still occur;
+  * DLQ admin script: reprocess_all / reprocess (single) / pop / peek / clear event / cleanup event /
+    get_message / get_messages_by_age;
+  * consumers additionally misuse the API in harmless ways (double ack, reject after ack, redelivery of a message
+    that is not in flight).
+Message ids are uuid4 strings (not seeded): no observer exposes them.
+"""
 from __future__ import annotations
 
 import random
 
-from hv.scenarios.base import T, seed_all, stats_of, sub_seed
+from hv.scenarios.base import T, dur_ms, seed_all, size_over, stats_of, sub_seed
 
 NAME = "messaging"
 MODEL = "C19"
 COMPONENTS = ["MessageQueue", "DeadLetterQueue", "Topic", "Source", "NullEntity"]
 
+T_MODES = ["direct", "event", "sync"]
+DLQ_OPS = ["reprocess_all", "reprocess_one", "pop", "peek", "clear", "cleanup"]
+
+
+def _gen_q2(rng):
+    return {"lat_ms": dur_ms(rng, 0.1, 30, zero=True), "redelay_ms": dur_ms(rng, 1, 300),
+            "max_redeliveries": rng.choice([0, 1, 3]), "capacity": rng.choice([None, 0, 1, 3, 10]),
+            "proc_ms": dur_ms(rng, 0.1, 40, zero=True), "requeue_pct": rng.choice([0, 30, 100])}
+
 
 def gen_cfg(rng):
-    end = rng.choice([2.0, 3.0, 4.0])
-    n_cons = rng.randint(2, 4)
-    n_subs = rng.randint(2, 5)
+    long = rng.random() < 0.12
+    end = rng.choice([8.0, 10.0, 12.0]) if long else rng.choice([2.0, 3.0, 4.0])
+    end_ms = int(end * 1000)
+    regime = rng.choice(["light", "light", "overload", "burst", "starved"])
+    n_cons = rng.randint(1, 4)
+    n_subs = rng.randint(1, 5)
     # consumer behaviour weights: ack / reject+requeue / reject+drop / ignore (visibility timeout) / slow ack
-    beh = [rng.randint(2, 8), rng.randint(0, 4), rng.randint(0, 2), rng.randint(0, 4), rng.randint(0, 3)]
+    if rng.random() < 0.2:
+        beh = [0, 0, 0, 0, 0]
+        beh[rng.randrange(5)] = 1           # one behaviour only (probability 0 / 1 corner)
+    else:
+        beh = [rng.randint(2, 8), rng.randint(0, 4), rng.randint(0, 2), rng.randint(0, 4), rng.randint(0, 3)]
+    if long:
+        rates = [5, 10, 20]
+    elif regime == "overload":
+        rates = [150, 300, 500]
+    else:
+        rates = [10, 20, 40, 80]
+    n_prod = rng.randint(1, 2) if regime == "overload" else rng.randint(1, 3)
+    poll_rate = rng.choice([0, 20, 50, 100])
+    poll_after_publish = rng.random() < 0.8
+    if regime == "overload":
+        poll_after_publish = rng.random() < 0.3
+        poll_rate = rng.choice([10, 20, 50])
+    if regime == "starved":
+        poll_rate, poll_after_publish = 0, rng.random() < 0.5
+    bursts = []
+    if regime == "burst" or rng.random() < 0.2:
+        bursts = [[dur_ms(rng, 50, end_ms - 700), rng.randrange(n_prod), rng.choice([5, 20, 60, 120])]
+                  for _ in range(rng.randint(1, 3))]
+    t_bursts = [[dur_ms(rng, 50, end_ms - 700), rng.choice([5, 20, 60])]
+                for _ in range(rng.choice([0, 0, 1, 2]))]
+    t_retain = rng.choice([0, 5, 50, -1, size_over(rng, [1, 3], 100)])   # -1: library default max_history (100)
+    big_hist = t_retain == -1 or t_retain >= 99
+    t_rate = rng.choice([100, 200]) if big_hist and not long else (
+        rng.choice([5, 10, 20]) if long else rng.choice([10, 20, 50, 100]))
+    t_late_lo = 1500 if big_hist else 300
+    unsub_a = dur_ms(rng, 100, min(1500, end_ms - 1000))
+    t_unsub_a = dur_ms(rng, 100, min(1500, end_ms - 1000))
     return {
         "end": end,
-        "lat_ms": rng.randint(1, 20),
-        "redelay_ms": rng.randint(10, 200),
-        "max_redeliveries": rng.randint(0, 3),
-        "capacity": rng.choice([None, None, 4, 8, 20]),
+        "regime": regime,
+        "lat_ms": dur_ms(rng, 0.1, 40, zero=True),
+        "redelay_ms": dur_ms(rng, 1, 400) if rng.random() < 0.8 else dur_ms(rng, 1000, 2500),
+        "max_redeliveries": rng.choice([0, 1, 2, 3, 3, 10]),
+        "capacity": rng.choice([None, None, None, 0, 1, 2, 4, 8, 20, 200]),
+        "dlq": rng.random() < 0.85,
         "n_cons": n_cons,
-        "proc_ms": [rng.randint(1, 30) for _ in range(n_cons)],
+        "proc_ms": [dur_ms(rng, 0.1, rng.choice([10, 60, 300]), zero=True) for _ in range(n_cons)],
         "beh": beh,
-        "vis_ms": rng.randint(5, 80),
-        "producers": [{"rate": rng.choice([10, 20, 40, 80]), "poisson": rng.random() < 0.5,
-                       "batch": rng.choice([1, 1, 2, 3])} for _ in range(rng.randint(1, 3))],
-        "poll_rate": rng.choice([0, 20, 50, 100]),
-        "poll_after_publish": rng.random() < 0.8,
-        "unsub": [rng.randint(0, n_cons - 1), rng.randint(300, 900), rng.randint(1000, 1800)]
+        "beh_extra": rng.choice([0, 0, 1, 3]),
+        "vis_ms": dur_ms(rng, 1, rng.choice([20, 120, 1200])),
+        "producers": [{"rate": rng.choice(rates), "poisson": rng.random() < 0.5,
+                       "batch": rng.choice([1, 1, 2, 3, 8])} for _ in range(n_prod)],
+        "bursts": bursts,
+        "poll_rate": poll_rate,
+        "poll_after_publish": poll_after_publish,
+        "unsub": [rng.randint(0, n_cons - 1), unsub_a, dur_ms(rng, unsub_a, end_ms - 300)]
                  if rng.random() < 0.6 else None,
-        "dlq_cap": rng.choice([None, 2, 5]),
-        "dlq_retention_ms": rng.choice([None, 200, 800]),
-        "dlq_reprocess_ms": rng.choice([None, 1500, 1900]),
-        "dlq_cleanup_rate": rng.choice([0, 5]),
+        "dlq_cap": rng.choice([None, None, 0, 1, 2, 5, 50]),
+        "dlq_retention_ms": rng.choice([None, dur_ms(rng, 5, 300), dur_ms(rng, 300, 2500)]),
+        "dlq_reprocess_ms": rng.choice([None, None, dur_ms(rng, 600, end_ms - 100)]),
+        "dlq_ops": sorted([[dur_ms(rng, 300, end_ms - 100), rng.choice(DLQ_OPS)]
+                           for _ in range(rng.choice([0, 1, 3, 6]))], key=lambda o: o[0]),
+        "dlq_cleanup_rate": rng.choice([0, 1, 5, 40]),
+        "q2": _gen_q2(rng) if rng.random() < 0.5 else None,
         # topic
         "n_subs": n_subs,
-        "t_lat_ms": rng.randint(0, 15),
-        "t_rate": rng.choice([10, 20, 50]),
+        "t_lat_ms": dur_ms(rng, 0.1, 25, zero=True),
+        "t_rate": t_rate,
         "t_poisson": rng.random() < 0.5,
-        "t_mode": rng.choice(["direct", "event", "sync"]),
-        "t_unsub": [rng.randint(0, n_subs - 1), rng.randint(300, 900), rng.randint(1000, 1800)]
+        "t_mode": rng.choice(["mix", "mix", "direct", "event", "sync"]),
+        "t_bursts": t_bursts,
+        "t_unsub": [rng.randint(0, n_subs - 1), t_unsub_a, dur_ms(rng, t_unsub_a, end_ms - 300)]
                    if rng.random() < 0.7 else None,
-        "t_retain": rng.choice([0, 5, 50]),
-        "t_late_ms": rng.randint(500, 1500),
-        "t_max_subs": rng.choice([None, n_subs, n_subs + 1]),
-        "sub_proc_ms": rng.randint(0, 10),
+        "t_retain": t_retain,
+        "t_late_ms": dur_ms(rng, t_late_lo, end_ms - 400),
+        "t_late_replay": rng.random() < 0.85,
+        "t_resub_replay": rng.random() < 0.5,
+        "t_max_subs": rng.choice([None, None, 0, 1, n_subs, n_subs + 1]),
+        "sub_proc_ms": dur_ms(rng, 0.1, 20, zero=True),
         "bridge": rng.random() < 0.5,
+        "bridge_every": rng.choice([1, 3, 3, 7]),
     }
 
 
@@ -69,18 +146,27 @@ def build(cfg, seed):
     null = NullEntity()
     end = cfg["end"]
     stop = end - 0.6
+    beh_extra = cfg.get("beh_extra", 0)
+    bridge_every = cfg.get("bridge_every", 3)
+    q2c = cfg.get("q2")
 
     dlq = DeadLetterQueue("orders-dlq", capacity=cfg["dlq_cap"],
                           retention_period=None if cfg["dlq_retention_ms"] is None else cfg["dlq_retention_ms"] / 1000.0)
     queue = MessageQueue("orders", delivery_latency=cfg["lat_ms"] / 1000.0,
                          redelivery_delay=cfg["redelay_ms"] / 1000.0, max_redeliveries=cfg["max_redeliveries"],
-                         capacity=cfg["capacity"], dead_letter_queue=dlq)
+                         capacity=cfg["capacity"], dead_letter_queue=dlq if cfg.get("dlq", True) else None)
+    q2 = None
+    if q2c is not None:
+        q2 = MessageQueue("audit", delivery_latency=q2c["lat_ms"] / 1000.0, redelivery_delay=q2c["redelay_ms"] / 1000.0,
+                          max_redeliveries=q2c["max_redeliveries"], capacity=q2c["capacity"])
     topic = Topic("notify", delivery_latency=cfg["t_lat_ms"] / 1000.0, max_subscribers=cfg["t_max_subs"])
-    if cfg["t_retain"]:
+    if cfg["t_retain"] == -1:
+        topic.set_retain_messages(True)
+    elif cfg["t_retain"]:
         topic.set_retain_messages(True, max_history=cfg["t_retain"])
 
-    def poll_event(ent):
-        return Event(time=ent.now, event_type="poll", target=queue)
+    def poll_event(ent, q=None):
+        return Event(time=ent.now, event_type="poll", target=q or queue)
 
     class Producer(Entity):
         def __init__(self, i, batch):
@@ -115,7 +201,8 @@ def build(cfg, seed):
             self.rng = random.Random(sub_seed(seed, "cons", i))
             self.proc = cfg["proc_ms"][i] / 1000.0
             self.got = []
-            self.acked = self.rejected = self.dropped = self.ignored = self.slow = 0
+            self.mids = []
+            self.acked = self.rejected = self.dropped = self.ignored = self.slow = self.misuse = 0
             self.timeouts = 0
             self.redeliveries_scheduled = 0
 
@@ -131,7 +218,11 @@ def build(cfg, seed):
                 return []
             mid = event.context["message_id"]
             self.got.append([event.context["payload"].event_type, event.context["delivery_count"]])
-            what = self.rng.choices(range(5), weights=cfg["beh"])[0]
+            self.mids.append(mid)
+            if beh_extra:
+                what = self.rng.choices(range(6), weights=[*cfg["beh"], beh_extra])[0]
+            else:
+                what = self.rng.choices(range(5), weights=cfg["beh"])[0]
             vis = Event(time=self.now + cfg["vis_ms"] / 1000.0, event_type="vis_timeout", target=self,
                         context={"message_id": mid})
             if what == 0:
@@ -151,12 +242,45 @@ def build(cfg, seed):
             if what == 3:
                 self.ignored += 1
                 return [vis]
+            if what == 5:
+                # harmless misuse: double ack, reject after ack, redelivery of a message that is gone
+                self.misuse += 1
+                queue.acknowledge(mid)
+                queue.acknowledge(mid)
+                queue.reject(mid, requeue=True)
+                ev = queue.schedule_redelivery(mid)
+                yield self.proc
+                return [poll_event(self)] + ([ev] if ev is not None else [])
             # slow ack: the visibility timeout fires first, the ack arrives while redelivery is pending
             self.slow += 1
             yield 0.0, [vis]
             yield cfg["vis_ms"] / 1000.0 + self.proc
             queue.acknowledge(mid)
             return [poll_event(self)]
+
+    class AuditConsumer(Entity):
+        """consumer of the second queue (no DLQ): acks or rejects-with-requeue after a processing time"""
+
+        def __init__(self):
+            super().__init__("audit-consumer")
+            self.rng = random.Random(sub_seed(seed, "audit"))
+            self.got = []
+            self.acked = self.rejected = 0
+
+        def handle_event(self, event):
+            if event.event_type != "message_delivery":
+                return []
+            mid = event.context["message_id"]
+            self.got.append([event.context["payload"].event_type, event.context["delivery_count"]])
+            if q2c["proc_ms"]:
+                yield q2c["proc_ms"] / 1000.0
+            if self.rng.randrange(100) < q2c["requeue_pct"]:
+                q2.reject(mid, requeue=True)
+                self.rejected += 1
+            else:
+                q2.acknowledge(mid)
+                self.acked += 1
+            return [poll_event(self, q2)]
 
     class TopicPub(Entity):
         def __init__(self):
@@ -167,9 +291,12 @@ def build(cfg, seed):
             self.n += 1
             payload = Event(time=self.now, event_type=f"note-{self.n}", target=null,
                             context={"customer": f"user-{self.n % 17}"})
-            if cfg["t_mode"] == "event":
+            mode = cfg["t_mode"]
+            if mode == "mix":
+                mode = T_MODES[self.n % 3]
+            if mode == "event":
                 return [Event(time=self.now, event_type="publish", target=topic, context={"payload": payload})]
-            if cfg["t_mode"] == "sync":
+            if mode == "sync":
                 return topic.publish_sync(payload)
             return self._direct(payload)
 
@@ -200,14 +327,15 @@ def build(cfg, seed):
             self.last = p
             if cfg["sub_proc_ms"]:
                 yield cfg["sub_proc_ms"] / 1000.0
-            if self.bridge and self.n % 3 == 0:
+            if self.bridge and self.n % bridge_every == 0:
+                tq = q2 or queue
                 try:
-                    yield from queue.publish(event.context["payload"])
+                    yield from tq.publish(event.context["payload"])
                     self.bridged += 1
                 except RuntimeError:
                     self.bridge_full += 1
                     return []
-                return [poll_event(self)]
+                return [poll_event(self, tq)]
             return []
 
     class Admin(Entity):
@@ -222,32 +350,62 @@ def build(cfg, seed):
                 topic.unsubscribe(subs[event.context["i"]])
             elif op == "t_resub":
                 try:
-                    topic.subscribe(subs[event.context["i"]])
+                    # with replay: the re-activated subscription (subscribed long ago) gets the retained history
+                    return topic.subscribe(subs[event.context["i"]], replay_history=cfg.get("t_resub_replay", False))
                 except RuntimeError:
                     self.refused += 1
             elif op == "t_late":
                 try:
-                    return topic.subscribe(late, replay_history=True)
+                    return topic.subscribe(late, replay_history=cfg.get("t_late_replay", True))
                 except RuntimeError:
                     self.refused += 1
-            elif op == "dlq_reprocess":
+            elif op == "dlq_reprocess" or op == "dlq_reprocess_all":
                 evs = dlq.reprocess_all(queue)
                 self.reprocessed += len(evs)
                 return evs
+            elif op == "dlq_reprocess_one":
+                m = dlq.get_message(dlq.message_count // 2)
+                self.dlq_log.append(["one", None if m is None else m.payload.event_type,
+                                     len(dlq.get_messages_by_age(0.25))])
+                if m is not None:
+                    ev = dlq.reprocess(m, queue)
+                    again = dlq.reprocess(m, queue)      # the message is gone: None
+                    self.dlq_log.append(["again", again is None])
+                    if ev is not None:
+                        self.reprocessed += 1
+                        return [ev]
+            elif op == "dlq_pop":
+                m = dlq.pop()
+                self.dlq_log.append(["pop", None if m is None else [m.payload.event_type, m.delivery_count]])
+            elif op == "dlq_peek":
+                m = dlq.peek()
+                self.dlq_log.append(["peek", None if m is None else m.payload.event_type, dlq.is_full])
+            elif op == "dlq_clear":
+                return [Event(time=self.now, event_type="clear", target=dlq)]
+            elif op == "dlq_cleanup":
+                return [Event(time=self.now, event_type="cleanup", target=dlq)]
             return []
 
     producers = [Producer(i, p["batch"]) for i, p in enumerate(cfg["producers"])]
     consumers = [Consumer(i) for i in range(cfg["n_cons"])]
     for c in consumers:
         queue.subscribe(c)
-    subs = [Subscriber(f"sub-{i}", bridge=(cfg["bridge"] and i == 0)) for i in range(cfg["n_subs"])]
-    for s in subs:
-        topic.subscribe(s)
-    late = Subscriber("sub-late")
-    tpub = TopicPub()
+    audit = None
+    if q2 is not None:
+        audit = AuditConsumer()
+        q2.subscribe(audit)
     admin = Admin("admin")
     admin.refused = 0
     admin.reprocessed = 0
+    admin.dlq_log = []
+    subs = [Subscriber(f"sub-{i}", bridge=(cfg["bridge"] and i == 0)) for i in range(cfg["n_subs"])]
+    for s in subs:
+        try:
+            topic.subscribe(s)
+        except RuntimeError:            # max_subscribers below the number of subscribers
+            admin.refused += 1
+    late = Subscriber("sub-late")
+    tpub = TopicPub()
 
     sources = []
     for i, p in enumerate(cfg["producers"]):
@@ -257,17 +415,23 @@ def build(cfg, seed):
     if cfg["poll_rate"]:
         sources.append(Source.constant(rate=cfg["poll_rate"], target=queue, event_type="poll", name="src-poll",
                                        stop_after=end - 0.1))
+        if q2 is not None:
+            sources.append(Source.constant(rate=cfg["poll_rate"], target=q2, event_type="poll", name="src-poll2",
+                                           stop_after=end - 0.1))
     if cfg["dlq_cleanup_rate"]:
         sources.append(Source.constant(rate=cfg["dlq_cleanup_rate"], target=dlq, event_type="cleanup",
                                        name="src-cleanup", stop_after=end - 0.1))
     mk = Source.poisson if cfg["t_poisson"] else Source.constant
     sources.append(mk(rate=cfg["t_rate"], target=tpub, event_type="Tick", name="src-topic", stop_after=stop))
 
-    sim = Simulation(end_time=T(end), sources=sources,
-                     entities=[queue, dlq, topic, tpub, admin, late, *producers, *consumers, *subs])
+    ents = [queue, dlq, topic, tpub, admin, late, *producers, *consumers, *subs]
+    if q2 is not None:
+        ents += [q2, audit]
+    sim = Simulation(end_time=T(end), sources=sources, entities=ents)
 
-    def at(ms, typ, **ctx):
-        sim.schedule(Event(time=Instant.from_seconds(ms / 1000.0), event_type=typ, target=admin, context=ctx))
+    def at(ms, typ, target=None, **ctx):
+        sim.schedule(Event(time=Instant.from_seconds(ms / 1000.0), event_type=typ, target=target or admin,
+                           context=ctx))
 
     if cfg["unsub"]:
         i, a, b = cfg["unsub"]
@@ -280,35 +444,58 @@ def build(cfg, seed):
     at(cfg["t_late_ms"], "t_late")
     if cfg["dlq_reprocess_ms"] is not None:
         at(cfg["dlq_reprocess_ms"], "dlq_reprocess")
+    for t_ms, op in cfg.get("dlq_ops", []):
+        at(t_ms, "dlq_" + op)
+    for t_ms, i, n in cfg.get("bursts", []):
+        for _ in range(n):
+            at(t_ms, "Tick", target=producers[i % len(producers)])
+    for t_ms, n in cfg.get("t_bursts", []):
+        for _ in range(n):
+            at(t_ms, "Tick", target=tpub)
 
-    def q_obs():
-        return {"pending": queue.pending_count, "in_flight": queue.in_flight_count,
-                "consumers": queue.consumer_count, "full": queue.is_full,
-                "avg_lat": queue.stats.avg_delivery_latency, "ack_rate": queue.stats.ack_rate}
+    def states_of(q, mids):
+        out = {}
+        for mid in mids:
+            m = q.get_message(mid)
+            k = "gone" if m is None else m.state.name
+            out[k] = out.get(k, 0) + 1
+        return sorted(out.items())
+
+    def q_obs(q=queue):
+        return {"pending": q.pending_count, "in_flight": q.in_flight_count,
+                "consumers": q.consumer_count, "full": q.is_full, "capacity": q.capacity,
+                "avg_lat": q.stats.avg_delivery_latency, "ack_rate": q.stats.ack_rate}
 
     def dlq_obs():
-        return {"count": dlq.message_count,
+        return {"count": dlq.message_count, "capacity": dlq.capacity, "full": dlq.is_full,
                 "msgs": [[m.payload.event_type, m.delivery_count, m.state.name] for m in dlq.messages],
-                "by_count": len(dlq.get_messages_by_delivery_count(2))}
+                "by_count": len(dlq.get_messages_by_delivery_count(2)),
+                "young": len(dlq.get_messages_by_age(0.5))}
 
     def topic_obs():
-        return {"subscriber_count": topic.subscriber_count,
+        return {"subscriber_count": topic.subscriber_count, "max": topic.max_subscribers,
                 "subscribers": [s.name for s in topic.subscribers],
                 "received": [[s.name, topic.get_subscription(s).messages_received,
-                              topic.get_subscription(s).active] for s in [*subs, late]
+                              topic.get_subscription(s).active,
+                              topic.get_subscription(s).subscribed_at.nanoseconds] for s in [*subs, late]
                              if topic.get_subscription(s) is not None],
                 "avg_lat": topic.stats.avg_delivery_latency}
 
     obs = {"queue": stats_of(queue), "queue.x": q_obs, "dlq": stats_of(dlq), "dlq.x": dlq_obs,
            "topic": stats_of(topic), "topic.x": topic_obs,
-           "admin": lambda: {"refused": admin.refused, "reprocessed": admin.reprocessed},
+           "admin": lambda: {"refused": admin.refused, "reprocessed": admin.reprocessed, "dlq_log": admin.dlq_log},
            "tpub": lambda: tpub.n}
+    if q2 is not None:
+        obs["audit"] = stats_of(q2)
+        obs["audit.x"] = lambda: dict(q_obs(q2), got=audit.got[:40], n=len(audit.got), ack=audit.acked,
+                                      rej=audit.rejected)
     for p in producers:
         obs[p.name] = (lambda p=p: {"n": p.n, "published": p.published, "full": p.full})
     for c in consumers:
         obs[c.name] = (lambda c=c: {"n": len(c.got), "ack": c.acked, "rej": c.rejected, "drop": c.dropped,
-                                    "ign": c.ignored, "slow": c.slow, "timeouts": c.timeouts,
-                                    "resched": c.redeliveries_scheduled, "got": c.got})
+                                    "ign": c.ignored, "slow": c.slow, "misuse": c.misuse, "timeouts": c.timeouts,
+                                    "resched": c.redeliveries_scheduled, "got": c.got,
+                                    "states": states_of(queue, c.mids)})
     for s in [*subs, late]:
         obs[s.name] = (lambda s=s: {"n": s.n, "replays": s.replays, "first": s.first, "last": s.last,
                                     "bridged": s.bridged, "bridge_full": s.bridge_full})
